@@ -21,9 +21,9 @@ from mc.vloop import VLoop
 
 from .common_server import norm
 
-TABLE = methods.STD_TABLE
+TABLE = dict(methods.STD_TABLE, perrz=dict(kind='perr', params=[], code=0, message='zero', cls='base'))
 CTX = object()
-RAISED_CODES = [-32601, -32602, 1234, -32000, -32603]
+RAISED_CODES = [-32601, -32602, 1234, -32000, -32603, 0]
 # methods whose handling fails before the body runs (broken view constructor / validator): the -32603 path
 INTERNAL = {'vboom': dict(kind='internal', params=[]), 'valboom': dict(kind='internal', params=[])}
 REF_TABLE = dict(TABLE, **INTERNAL)
@@ -43,6 +43,9 @@ HANDLER_TABLES = {
     'same-generic+percode': {None: [('id', 'F1')], 'code': [('id', 'F1')]},
     'same-around-replace': {None: [('id', 'B1'), 'replace', ('id', 'B1')], 'newcode': [('id', 'B1')]},
     'same-twice-percode': {'code': [('id', 'B1'), 'id', ('id', 'B1')]},
+    # handlers that write into the error object they are given
+    'stamp-generic': {None: ['stamp']},
+    'stamp-percode': {None: ['id'], 'code': ['stamp']},
 }
 
 
@@ -112,12 +115,18 @@ def build(disp, stack, table_name, events, mbs=None, shapes='list'):
     def eh_sync(hid, kind):
         def eh(rq, cx, error):
             events.append(('eh', hid, rq.method, rq.id, error.code, cx is CTX))
+            if kind == 'stamp':
+                error.data = {'stamped-for': rq.id, 'by': hid}       # the handler enriches the error it was given IN PLACE
+                return error
             return JsonRpcError(new_code(hid), 'replaced') if kind == 'replace' else error
         return eh
 
     def eh_async(hid, kind):
         async def eh(rq, cx, error):
             events.append(('eh', hid, rq.method, rq.id, error.code, cx is CTX))
+            if kind == 'stamp':
+                error.data = {'stamped-for': rq.id, 'by': hid}
+                return error
             return JsonRpcError(new_code(hid), 'replaced') if kind == 'replace' else error
         if shapes == 'future-handlers' and hid % 2 == 0:
             # a handler that is a plain function returning an awaitable that is NOT a coroutine object (a Future / Task, e.g.
@@ -191,6 +200,9 @@ def ref_element(o, stack, table, events, calls):
             cur = dict(body)
             for hid, kind in table.get(None, []) + table.get(raised, []):
                 events.append(('eh', hid, req['method'], req.get('id'), cur['code'], True))
+                if hkind(kind) == 'stamp':
+                    code_, msg_ = cur['code'], (cur['exact'][1] if cur.get('exact') else None)
+                    cur = dict(code=code_, stamped={'stamped-for': req.get('id'), 'by': hid}, exact=((code_, msg_, {'stamped-for': req.get('id'), 'by': hid}) if msg_ is not None else None))
                 if hkind(kind) == 'replace':
                     cur = dict(code=new_code(hid), exact=(new_code(hid), 'replaced', ABSENT))
             body = cur
@@ -250,6 +262,9 @@ REQUESTS = {
     'invalid': {'jsonrpc': '2.0', 'id': 1}, 'empty-batch': [], 'batch-invalid-elem': [call('ok', [1]), 1],
     'oversize': [call('ok', [1], id=1), call('ok', [2], id=2)],
     'null-result': call('nop'),
+    'perr0': call('perrz'), 'perr0-n': call('perrz', id=None),
+    # two ANSWERED failures before the method body (-32603) in one batch: each one's handlers work on that element's own error
+    'batch-internal2': [call('vboom', id=1), call('valboom', id=2), call('ok', [1], id=3), call('vboom', id=4)],
     'internal': call('valboom'), 'internal-n': call('vboom', id=None),
     'batch-internal': [call('vboom', id=1), call('ok', [1], id=2), call('valboom', id=None)],
 }
